@@ -91,6 +91,9 @@ def to_string_cases(rng):
         d["_private"] = 1
         d["nested"] = {"_p": 2, "q": [1, {"_r": 3}]}
         out.append((fm_name, d))
+        # options given only in part (the documented way to override some defaults): they belong to the caller
+        d2 = dict(copy.deepcopy(d), _xmlOpts=rng.choice([{"_rootTag": "Model"}, {"_nameSpaces": {"xs": "http://example.org/x"}}, {}, {"_rootAttributes": {"version": "1"}, "_rootTag": "r"}]))
+        out.append((fm_name, d2))
     return out
 
 
